@@ -144,6 +144,10 @@ def check(ctx):
         ctx.check(bool(sinks) and not bad, "C13.c", "%s:system-flows-only-into-own-callback" % lib.fkey(e), "%s:%d" % (e.file, e.line),
                   "system argument flows to %s" % sorted({s[1] for s in sinks}),
                   "the system argument reaches %s: a shared or type-keyed system would share state between registrations" % bad)
+    # a world reactor type is registered (and its state created) at most once (shared with C16.a)
+    import c16
+    n16 = core.adopt(ctx, c16, lambda o: o["rule"] == "C16.a" and "spawns-exactly-one-system-or-panics" in o["key"], "C13.c")
+    ctx.floor("C13.c", n16, 3, "shared world-reactor registration obligations (C16.a)")
     try:
         cb = prog.adt_by_name("SystemCommandCallback")
         for tr in ("Clone", "Copy"):
